@@ -19,37 +19,44 @@ type c07Route struct {
 	Method string   `json:"method"` // one of the nine or "*"
 	Text   string   `json:"route"`
 	Hdr    []string `json:"header_pairs,omitempty"`
+	// Rejected: an attempt that the router refuses (the registration panic is recovered and the application
+	// goes on): it must leave the routes registered before it as they were
+	Rejected bool `json:"rejected_attempt,omitempty"`
 }
 
 var c07Sets = [][]c07Route{
 	{},
-	{{"GET", "/", nil}, {"GET", "/a", nil}, {"GET", "/a/b", nil}},
-	{{"GET", "/{x}", nil}, {"GET", "/a/{y}", nil}},
-	{{"GET", "/{r: /[a2]+/}", nil}, {"GET", "/a/{s: /a|z/}/c", nil}},
-	{{"GET", "/a/{m: **}", nil}},
-	{{"GET", "/{m: **, capture: 2}/z", nil}},
-	{{"GET", "/a/{m: **, capture: 2}", nil}, {"GET", "/{n: **, capture: 1}", nil}},
-	{{"GET", "/a/?b", nil}, {"GET", "/?{o}", nil}},
-	{{"GET", "/a", []string{"X-K", "^v$"}}, {"GET", "/a/{x}", []string{"X-K", ""}}, {"GET", "/{m: **}", nil}},
-	{{"GET", "/", nil}, {"GET", "/a", nil}, {"GET", "/{x}", nil}, {"GET", "/a/{m: **}", nil}, {"GET", "/a/b/?c", nil}, {"GET", "/{r: /[a.]+/}/z", nil}},
-	{{"GET", "/a", nil}, {"POST", "/a", nil}, {"*", "/{x}", nil}, {"HEAD", "/a/{m: **}/z", nil}},
-	{{"GET", "/a.{x}", nil}, {"GET", "/{x}.{y}", nil}, {"GET", "/a/{x}-{y}/?z", nil}},
+	{{"GET", "/", nil, false}, {"GET", "/a", nil, false}, {"GET", "/a/b", nil, false}},
+	{{"GET", "/{x}", nil, false}, {"GET", "/a/{y}", nil, false}},
+	{{"GET", "/{r: /[a2]+/}", nil, false}, {"GET", "/a/{s: /a|z/}/c", nil, false}},
+	{{"GET", "/a/{m: **}", nil, false}},
+	{{"GET", "/{m: **, capture: 2}/z", nil, false}},
+	{{"GET", "/a/{m: **, capture: 2}", nil, false}, {"GET", "/{n: **, capture: 1}", nil, false}},
+	{{"GET", "/a/?b", nil, false}, {"GET", "/?{o}", nil, false}},
+	{{"GET", "/a", []string{"X-K", "^v$"}, false}, {"GET", "/a/{x}", []string{"X-K", ""}, false}, {"GET", "/{m: **}", nil, false}},
+	{{"GET", "/", nil, false}, {"GET", "/a", nil, false}, {"GET", "/{x}", nil, false}, {"GET", "/a/{m: **}", nil, false}, {"GET", "/a/b/?c", nil, false}, {"GET", "/{r: /[a.]+/}/z", nil, false}},
+	{{"GET", "/a", nil, false}, {"POST", "/a", nil, false}, {"*", "/{x}", nil, false}, {"HEAD", "/a/{m: **}/z", nil, false}},
+	{{"GET", "/a.{x}", nil, false}, {"GET", "/{x}.{y}", nil, false}, {"GET", "/a/{x}-{y}/?z", nil, false}},
 	// a static route registered for all methods after an optional twin for GET only, with header
 	// constraints (every method's leaf has its own standing in its own tree)
-	{{"GET", "/a/?z", nil}, {"*", "/a/z", []string{"X-K", "^v$"}}, {"POST", "/{m: **}", nil}},
+	{{"GET", "/a/?z", nil, false}, {"*", "/a/z", []string{"X-K", "^v$"}, false}, {"POST", "/{m: **}", nil, false}},
 	// the constrained header named in a non-canonical spelling
-	{{"GET", "/a", []string{"x-k", "^v$"}}, {"GET", "/{x}", nil}},
+	{{"GET", "/a", []string{"x-k", "^v$"}, false}, {"GET", "/{x}", nil, false}},
 	// expressions with quoting (\Q..\E): self-contained, and one whose \Q is not closed inside its own
 	// expression (if such a route is accepted, serving it must still not panic)
-	{{"GET", `/{x: /(a)\Qz\E/}{y: /\Qb\E/}`, nil}, {"GET", "/{p}", nil}},
-	{{"GET", `/{x: /(a)\Q/}{y: /\Qb\E/}`, nil}, {"GET", "/{p}", nil}},
+	{{"GET", `/{x: /(a)\Qz\E/}{y: /\Qb\E/}`, nil, false}, {"GET", "/{p}", nil, false}},
+	{{"GET", `/{x: /(a)\Q/}{y: /\Qb\E/}`, nil, false}, {"GET", "/{p}", nil, false}},
+	// registration attempts that are refused, between accepted ones (bind reused deeper down the same
+	// prefix, a duplicate, a second match-all): the accepted routes stay as they were
+	{{Method: "GET", Text: "/a/{x}"}, {Method: "GET", Text: "/a/{x}/{y}/{y}", Rejected: true}, {Method: "GET", Text: "/a/{x}/z"}, {Method: "GET", Text: "/a/{x}/z", Rejected: true}, {Method: "GET", Text: "/{m: **}"}},
+	{{Method: "GET", Text: "/a/b/z"}, {Method: "GET", Text: "/a/?b"}, {Method: "GET", Text: "/a/b", Rejected: true}, {Method: "GET", Text: "/a/{m: **}/{n: **}/z", Rejected: true}, {Method: "GET", Text: "/a/{m: **}/z"}},
 	// capture limits at the edges of their range (non-positive means unlimited)
-	{{"GET", "/a/{m: **, capture: -1}/z", nil}, {"GET", "/{n: **, capture: 0}", nil}},
-	{{"GET", "/a/{m: **, capture: 9223372036854775807}/z", nil}, {"GET", "/z/{n: **, capture: -9223372036854775808}", nil}},
+	{{"GET", "/a/{m: **, capture: -1}/z", nil, false}, {"GET", "/{n: **, capture: 0}", nil, false}},
+	{{"GET", "/a/{m: **, capture: 9223372036854775807}/z", nil, false}, {"GET", "/z/{n: **, capture: -9223372036854775808}", nil, false}},
 	// a larger mixed table (many siblings of every kind under two prefixes)
-	{{"GET", "/", nil}, {"GET", "/a", nil}, {"GET", "/a/", nil}, {"GET", "/a/b", nil}, {"GET", "/a/{x}", nil}, {"GET", "/a/{r: /[a2]+/}/z", nil}, {"GET", "/a/{m: **, capture: 3}/z", nil},
-		{"GET", "/a/c/?d", nil}, {"GET", "/z/{p}/{q}", nil}, {"GET", "/z/{p}/{q}/{r: /z+/}", nil}, {"GET", "/z/{m: **}", nil}, {"GET", "/{x}/z", nil}, {"GET", "/{s: /[.?]+/}", nil},
-		{"POST", "/a/{x}", nil}, {"*", "/z/?a", nil}, {"HEAD", "/{m: **, capture: 2}", nil}, {"GET", "/{p}.{q: /[az]+/}/{m: **}", nil}},
+	{{"GET", "/", nil, false}, {"GET", "/a", nil, false}, {"GET", "/a/", nil, false}, {"GET", "/a/b", nil, false}, {"GET", "/a/{x}", nil, false}, {"GET", "/a/{r: /[a2]+/}/z", nil, false}, {"GET", "/a/{m: **, capture: 3}/z", nil, false},
+		{"GET", "/a/c/?d", nil, false}, {"GET", "/z/{p}/{q}", nil, false}, {"GET", "/z/{p}/{q}/{r: /z+/}", nil, false}, {"GET", "/z/{m: **}", nil, false}, {"GET", "/{x}/z", nil, false}, {"GET", "/{s: /[.?]+/}", nil, false},
+		{"POST", "/a/{x}", nil, false}, {"*", "/z/?a", nil, false}, {"HEAD", "/{m: **, capture: 2}", nil, false}, {"GET", "/{p}.{q: /[az]+/}/{m: **}", nil, false}},
 }
 
 var c07Methods = []string{"GET", "POST", "HEAD", "BREW", "get", ""}
@@ -95,6 +102,7 @@ func c07BuildL(set []c07Route, userNotFound, withMW, late bool) *c07World {
 			c.ResponseWriter().WriteHeader(404)
 		})
 	}
+	var accepted []c07Route
 	for i := range set {
 		if late && i == len(set)-1 {
 			warm()
@@ -108,12 +116,25 @@ func c07BuildL(set []c07Route, userNotFound, withMW, late bool) *c07World {
 			}
 		}
 		final := func(c flamego.Context) { c.ResponseWriter().WriteHeader(200) }
+		if rt.Rejected {
+			func() {
+				defer func() {
+					if recover() == nil {
+						panic("c07: an attempt marked as rejected was accepted: " + rt.Text)
+					}
+				}()
+				w.f.Route(rt.Method, rt.Text, []flamego.Handler{marker, final})
+			}()
+			continue
+		}
 		h := w.f.Route(rt.Method, rt.Text, []flamego.Handler{marker, final})
 		if len(rt.Hdr) > 0 {
 			h.Headers(rt.Hdr...)
 		}
+		accepted = append(accepted, rt)
 		w.refs = append(w.refs, ref.MustParse(rt.Text))
 	}
+	w.set = accepted
 	if late {
 		if len(set) == 0 {
 			warm()
